@@ -16,6 +16,7 @@ from bitstring import BitArray, Bits, BitStream, ConstBitStream
 from rv import util
 from rv.util import B, CLASSES, call, mk, rb
 
+AMBIENT = ['bytealigned']      # an option this property does not depend on: a quarter of the cases run with it switched on
 PROP = 'C08'
 SHARDS = {'quick': 4, 'thorough': 16}
 RULE = ("differential twins: an object built through a construction route (bin/hex/oct text, token string first use and "
